@@ -185,7 +185,7 @@ func TestC17(t *testing.T) {
 		smoke(t, r, dir)
 		serverOverTime(t, r, dir)
 	}
-	r.Require("servers_followed_over_time", "uploads_checked", "failed_uploads", "retries_after_failure", "idle_periods_checked", "cancellations_checked", "uploads_with_write_during_window", "timelines", "suppressed_uploads_without_change", "uploads_hanging_past_the_limit", "timelines_on_reopened_database", "lone_activations", "uploads_racing_a_write", "backups_over_an_unreadable_file", "reads_of_the_file_during_saves", "failed_writes_in_timelines", "lone_version_deletions")
+	r.Require("timelines_started_off_the_minute", "servers_followed_over_time", "uploads_checked", "failed_uploads", "retries_after_failure", "idle_periods_checked", "cancellations_checked", "uploads_with_write_during_window", "timelines", "suppressed_uploads_without_change", "uploads_hanging_past_the_limit", "timelines_on_reopened_database", "lone_activations", "uploads_racing_a_write", "backups_over_an_unreadable_file", "reads_of_the_file_during_saves", "failed_writes_in_timelines", "lone_version_deletions")
 	r.Rule("seeded timelines of ~20 events over virtual hours: sleep d in {0,1s,30s,59s,60s,61s,5min,1h}, bursts of 1-3 real database writes (put/activate/delete), endpoint mode switches (ok / 403 not retryable / 500 retryable / hold for d with a write landing inside the held upload), then a quiet tail, an idle hour and cancellation at a random point of the minute cycle. Distinct = (endpoint mode at upload, writes during window?, outcome) and the smoke case through server.New")
 }
 
@@ -214,6 +214,11 @@ func timeline(t *testing.T, r *evid.Run, dir string, idx int) {
 	}
 	synctest.Test(t, func(t *testing.T) {
 		progress.Add(1)
+		// (a bubble's clock starts on a full minute of a full hour; a real server starts whenever it starts)
+		if idx%2 == 1 {
+			time.Sleep(time.Duration(1+r.Rand(uint64(idx)+1<<41).IntN(3599_000)) * time.Millisecond)
+			r.Count("timelines_started_off_the_minute", 1)
+		}
 		t0 := time.Now()
 		kdb, err := db.Open(path, key, audit.New(io.Discard))
 		if err != nil {
